@@ -27,6 +27,8 @@ case_strategy = st.fixed_dictionaries({
     "keymode": st.sampled_from(jp.KEYMODES),
     "form_sign": st.sampled_from(KEYFORMS),
     "form_verify": st.sampled_from(KEYFORMS),
+    # another part of the application has its own registry with required header parameters (ACME style) and used it before
+    "prelude": st.booleans(),
 })
 
 
@@ -63,6 +65,14 @@ def _hdr_eq(got, given, allow_kid, kid_expected, where, f, tag):
 def run_case(case) -> dict:
     """Returns findings {key: what}; {} = fine; {'dont_care': ...} marks DONT_CARE."""
     from joserfc import jws
+    if case.get("prelude"):
+        from joserfc.registry import HeaderParameter
+        from joserfc.jwk import OctKey
+        reg = jws.JWSRegistry(header_registry={"nonce": HeaderParameter("replay nonce", "str", True), "url": HeaderParameter("target url", "str", True)},
+                              algorithms=["HS256"])
+        k0 = OctKey.import_key({"kty": "oct", "k": "AAAAAAAAAAAAAAAAAAAAAAAAAAAAAAAAAAAAAAAAAAA"})
+        t0 = jws.serialize_compact({"alg": "HS256", "nonce": "n-1", "url": "https://example.com/acme"}, b"{}", k0, registry=reg)
+        jws.deserialize_compact(t0, k0, registry=reg)
     plan, keymode = case["plan"], case["keymode"]
     payload = bytes.fromhex(plan["payload_hex"])
     ser = plan["ser"]
